@@ -18,6 +18,9 @@ pub struct CovCase {
     pub delim: Vec<u8>,
     pub threads: usize,
     pub mem: f64,
+    /// the same `CovComputer` object first built its table from (and computed coverages against) this other counting
+    /// input, then was pointed at the actual one with `set_kmer_path` and rebuilt
+    pub prev: Option<Vec<Vec<u8>>>,
 }
 
 fn recs_field(r: &[Vec<u8>]) -> String {
@@ -30,7 +33,7 @@ fn parse_recs(s: &str) -> Vec<Vec<u8>> {
 impl CovCase {
     pub fn req(&self) -> String {
         format!(
-            "covfile {} {} {} {} {} {} {:e} {} {}",
+            "covfile {} {} {} {} {} {} {:e} {} {}{}",
             self.k,
             self.bin_size,
             self.bin_count,
@@ -39,12 +42,13 @@ impl CovCase {
             self.threads,
             self.mem,
             recs_field(&self.recs),
-            self.alt.as_ref().map(|a| recs_field(a)).unwrap_or("~".into())
+            self.alt.as_ref().map(|a| recs_field(a)).unwrap_or("~".into()),
+            self.prev.as_ref().map(|a| format!(" {}", recs_field(a))).unwrap_or_default()
         )
     }
     pub fn parse(line: &str) -> Option<CovCase> {
         let w: Vec<&str> = line.split_whitespace().collect();
-        if w.len() != 10 || w[0] != "covfile" {
+        if (w.len() != 10 && w.len() != 11) || w[0] != "covfile" {
             return None;
         }
         Some(CovCase {
@@ -57,11 +61,12 @@ impl CovCase {
             mem: w[7].parse().ok()?,
             recs: parse_recs(w[8]),
             alt: if w[9] == "~" { None } else { Some(parse_recs(w[9])) },
+            prev: if w.len() == 11 { Some(parse_recs(w[10])) } else { None },
         })
     }
     pub fn describe(&self) -> String {
         format!(
-            "coverage k={} bin-size={} bin-count={} norm={} delim=\"{}\" threads={} memory={:e} records={} alt-input={} [{}]",
+            "coverage k={} bin-size={} bin-count={} norm={} delim=\"{}\" threads={} memory={:e} records={} alt-input={}{} [{}]",
             self.k,
             self.bin_size,
             self.bin_count,
@@ -71,6 +76,7 @@ impl CovCase {
             self.mem,
             self.recs.len(),
             self.alt.as_ref().map(|a| a.len().to_string()).unwrap_or("same".into()),
+            self.prev.as_ref().map(|a| format!(" (computer reused: first built and computed against another counting input of {} records)", a.len())).unwrap_or_default(),
             self.recs.iter().take(4).map(|r| show(&r[..r.len().min(24)])).collect::<Vec<_>>().join(" | ")
         )
     }
@@ -128,6 +134,7 @@ pub fn expected_rows(c: &CovCase, model: &Model) -> Result<Vec<u8>, String> {
 pub fn run_cov(c: &CovCase, work: &str, uid: &str) -> (Result<(), String>, Vec<u8>) {
     let inp = write_input(work, uid, &c.recs, "fa");
     let alt = c.alt.as_ref().map(|a| write_input(work, &format!("{}alt", uid), a, "fa"));
+    let prev = c.prev.as_ref().map(|a| write_input(work, &format!("{}prev", uid), a, "fa"));
     let dir = format!("{}/cov_{}", work, uid);
     let _ = std::fs::create_dir_all(&dir);
     let result = catch(std::panic::AssertUnwindSafe(|| {
@@ -136,12 +143,25 @@ pub fn run_cov(c: &CovCase, work: &str, uid: &str) -> (Result<(), String>, Vec<u
         cc.set_norm(c.norm);
         cc.set_delim(String::from_utf8_lossy(&c.delim).to_string());
         cc.set_max_memory(c.mem);
+        if let Some(p) = &prev {
+            cc.set_kmer_path(p.clone());
+            cc.build_table().unwrap();
+            cc.compute_coverages();
+            cc.set_kmer_path(inp.clone());
+        }
         if let Some(a) = &alt {
             cc.set_kmer_path(a.clone());
         }
         cc.build_table().unwrap();
         cc.compute_coverages();
+        if prev.is_some() {
+            // computing again without rebuilding must not change anything either
+            cc.compute_coverages();
+        }
     }));
+    if let Some(p) = prev {
+        let _ = std::fs::remove_file(p);
+    }
     let out = std::fs::read(format!("{}/kmers.vectors", dir)).unwrap_or_default();
     let _ = std::fs::remove_file(&inp);
     if let Some(a) = alt {
@@ -285,8 +305,23 @@ pub fn run_c08_files(tier: &str, rng: &mut Rng, model: &Model, rep: &mut Report,
             delim: rng.pick(&[b" ".to_vec(), b",".to_vec(), b"\t".to_vec()]).clone(),
             threads: *rng.pick(&[1usize, 2, 4, 16]),
             mem: *rng.pick(&[6.0, 1.0, 0.5, 1e-7, 1e-8]),
+            prev: None,
         };
         run_one(&c, "files", rep);
+        if rng.chance(1, 3) {
+            // the same object used twice: first against another counting input
+            let mut c2 = c.clone();
+            let n = rng.range(1, 10) as usize;
+            let mut p = gen_recs(rng, n, k, 150);
+            // share content with the records so that the earlier multiplicities would be visible
+            for r in c.recs.iter().take(3) {
+                for _ in 0..rng.range(1, 6) {
+                    p.push(r.clone());
+                }
+            }
+            c2.prev = Some(p);
+            run_one(&c2, "reused-computer", rep);
+        }
     }
     // many records in one batch with several threads (rows must stay in input order)
     let rounds = if tier == "thorough" { 6 } else { 1 };
@@ -294,7 +329,7 @@ pub fn run_c08_files(tier: &str, rng: &mut Rng, model: &Model, rep: &mut Report,
         let k = 3;
         let n = rng.range(2200, 3500) as usize;
         let recs: Vec<Vec<u8>> = (0..n).map(|i| { let l = 3 + (i % 37); gen::clean_seq(rng, l, gen::Flavor::Uniform) }).collect();
-        let c = CovCase { recs, alt: None, k, bin_size: 2, bin_count: 4, norm: false, delim: b" ".to_vec(), threads: 8, mem: 6.0 };
+        let c = CovCase { recs, alt: None, k, bin_size: 2, bin_count: 4, norm: false, delim: b" ".to_vec(), threads: 8, mem: 6.0, prev: None };
         run_one(&c, "many-records", rep);
     }
 }
